@@ -2,7 +2,7 @@
     Only property theorems; every proof is [exact <lemma>].  Vocabulary: Model.v (executable model of
     internal_cursors.py), Spec.v ([valid_cursor], [inb_cursor], [same], [same_e], [blk_rel], [wrap_pre], ...). *)
 From Coq Require Import List Arith Bool.
-From Cursors Require Import Model Spec EditInsert EditReplace EditWrap EditMove Chain.
+From Cursors Require Import Model Spec EditInsert EditReplace EditWrap EditMove Chain Implicit.
 Import ListNotations.
 
 (** Gap._insert: full strength *)
@@ -48,25 +48,26 @@ Proof. exact replace_complete. Qed.
 Print Assumptions C06_edit_replace_complete.
 
 (** Block._wrap.  The code as it stands now (after the repair of [_forward_wrap.fwd_block], which the
-    harness detects in the source on every run: [fixed = true]): full strength *)
-Theorem C06_edit_wrap : forall p a lo hi wl wa other t t' c c',
+    harness detects in the source on every run: [wrap_fixed v = true]): full strength *)
+Theorem C06_edit_wrap : forall v p a lo hi wl wa other t t' c c',
+  wrap_fixed v = true ->
   valid_edit t (EWrap p a lo hi wl wa other) -> apply_edit (EWrap p a lo hi wl wa other) t = Some t' ->
   valid_cursor t c ->
-  fwd_edit true (EWrap p a lo hi wl wa other) t c = Ok c' ->
+  fwd_edit v (EWrap p a lo hi wl wa other) t c = Ok c' ->
   valid_cursor t' c' /\ same_e (EWrap p a lo hi wl wa other) t c t' c'.
 Proof. exact wrap_sound_fixed. Qed.
 Print Assumptions C06_edit_wrap.
 
-(** regression record of the repaired defect: with the former [fwd_block] ([fixed = false], anchor index
+(** regression record of the repaired defect: with the former [fwd_block] ([code_as_found], anchor index
     [blk_rng.start]) the statement is false (a block cursor inside the wrapped range dangles) ... *)
 Theorem C06_edit_wrap_before_fix_refuted :
   exists t e c t' c',
     valid_edit t e /\ apply_edit e t = Some t' /\ valid_cursor t c /\
-    fwd_edit false e t c = Ok c' /\ ~ inb_cursor t' c'.
+    fwd_edit code_as_found e t c = Ok c' /\ ~ inb_cursor t' c'.
 Proof. exact wrap_refuted. Qed.
 Print Assumptions C06_edit_wrap_before_fix_refuted.
 
-(** ... and holds for either variant under [wrap_pre] (which is [True] when [fixed = true]) *)
+(** ... and holds for either variant under [wrap_pre] (which is [True] when [wrap_fixed fixed = true]) *)
 Theorem C06_edit_wrap_partial : forall fixed p a lo hi wl wa other t t' c c',
   valid_edit t (EWrap p a lo hi wl wa other) -> apply_edit (EWrap p a lo hi wl wa other) t = Some t' ->
   valid_cursor t c -> wrap_pre fixed (EWrap p a lo hi wl wa other) c ->
@@ -91,7 +92,7 @@ Print Assumptions C06_edit_wrap_complete.
 Theorem C06_move_refuted :
   exists t e c t' c',
     valid_edit t e /\ apply_edit e t = Some t' /\ valid_cursor t c /\
-    fwd_edit false e t c = Ok c' /\ ~ inb_cursor t' c'.
+    fwd_edit code_now e t c = Ok c' /\ ~ inb_cursor t' c'.
 Proof. exact move_refuted. Qed.
 Print Assumptions C06_move_refuted.
 
@@ -101,7 +102,7 @@ Print Assumptions C06_move_refuted.
 Theorem C06_move_block_hull_refuted :
   exists t e c t' c' L L',
     valid_edit t e /\ move_pre e /\ apply_edit e t = Some t' /\ valid_cursor t c /\
-    fwd_edit false e t c = Ok c' /\
+    fwd_edit code_now e t c = Ok c' /\
     match c, c' with
     | CBlock p a lo hi, CBlock p' a' lo' hi' =>
         block_labels t p a lo hi = Some L /\ block_labels t' p' a' lo' hi' = Some L' /\
@@ -116,13 +117,14 @@ Print Assumptions C06_move_block_hull_refuted.
 Theorem C06_move_block_crash_refuted :
   valid_edit hull_cex_tree hull_cex_edit /\ move_pre hull_cex_edit /\
   valid_cursor hull_cex_tree (CBlock [] Body 0 2) /\
-  fwd_edit false hull_cex_edit hull_cex_tree (CBlock [] Body 0 2) = Crash.
+  fwd_edit code_now hull_cex_edit hull_cex_tree (CBlock [] Body 0 2) = Crash.
 Proof. exact move_block_crash_refuted. Qed.
 Print Assumptions C06_move_block_crash_refuted.
 
-(** Under [move_ok] (= [move_pre], a non-empty moved block, and — for block cursors — the block lies on
-    neither of the two edited lists) the statement holds, for both orders of the delete/insert pair and for
-    the redirected target ([target in self]) *)
+(** Under [move_ok] (= [move_pre], a non-empty moved block, and — for block cursors — [move_blk_okb]: a block
+    on the source list is disjoint from the moved range or inside it, a block on the target list does not
+    have the gap strictly inside) the statement holds, for both orders of the delete/insert pair and for the
+    redirected target ([target in self]); blocks inside the moved range arrive with the target list's attribute *)
 Theorem C06_move_partial : forall fixed p a lo hi gp s pl t t' c c',
   valid_edit t (EMove p a lo hi gp s pl) -> move_ok (EMove p a lo hi gp s pl) t c ->
   apply_edit (EMove p a lo hi gp s pl) t = Some t' ->
@@ -130,6 +132,14 @@ Theorem C06_move_partial : forall fixed p a lo hi gp s pl t t' c c',
   valid_cursor t' c' /\ same_e (EMove p a lo hi gp s pl) t c t' c'.
 Proof. exact move_sound. Qed.
 Print Assumptions C06_move_partial.
+
+(** node and gap cursors are never lost by a move (under [move_pre]) *)
+Theorem C06_move_complete : forall fixed p a lo hi gp s pl t c,
+  valid_edit t (EMove p a lo hi gp s pl) -> move_pre (EMove p a lo hi gp s pl) -> lo < hi ->
+  match c with CBlock _ _ _ _ => False | _ => True end ->
+  exists c', fwd_edit fixed (EMove p a lo hi gp s pl) t c = Ok c'.
+Proof. exact move_complete. Qed.
+Print Assumptions C06_move_complete.
 
 (** one statement for every edit kind ([edit_ok] = [wrap_pre] for wraps, [move_ok] for moves, [True] otherwise) *)
 Theorem C06_edit : forall fixed e t t' c c',
@@ -154,3 +164,26 @@ Theorem C06_chain_node_gap : forall fixed es t t' c c',
   valid_cursor t' c' /\ same t c t' c'.
 Proof. exact chain_node_gap_sound. Qed.
 Print Assumptions C06_chain_node_gap.
+
+(** [Procedure.forward]: a cursor already in the target procedure is returned as it is; forwarding to a
+    procedure is forwarding to its parent followed by the step's own (composed) forwarding function — which is
+    all that [CursorArgumentProcessor] does with a cursor handed to a scheduling operation; a cursor whose
+    procedure is not on the provenance chain is invalid *)
+Theorem C06_implicit_self : forall fixed chain self c,
+  proc_forward fixed chain self (self, c) = Ok (self, c).
+Proof. exact proc_forward_self. Qed.
+Print Assumptions C06_implicit_self.
+
+Theorem C06_implicit_step : forall fixed st rest rc,
+  ps_id st <> fst rc ->
+  proc_forward fixed (st :: rest) (ps_id st) rc =
+  rbind (proc_forward fixed rest (ps_parent st) rc) (step_forward fixed st).
+Proof. exact proc_forward_step. Qed.
+Print Assumptions C06_implicit_step.
+
+Theorem C06_implicit_foreign : forall fixed chain self rc,
+  collect chain self (fst rc) <> [] ->
+  (forall st, In st (collect chain self (fst rc)) -> ps_parent st <> fst rc) ->
+  proc_forward fixed chain self rc = Invalid.
+Proof. exact proc_forward_foreign. Qed.
+Print Assumptions C06_implicit_foreign.
